@@ -58,7 +58,7 @@ def corr_collstate(ctx, out, drv, rng, both):
 
     reqs, reals = [], []
     flags = [(a, b, c) for a in (False, True) for b in (False, True) for c in (False, True)]
-    for _ in range(ctx.budget(40, 400)):
+    for _ in range(ctx.budget(30, 300)):
         code = rng.choice(both)
         tbl = c12._oracle_table(c12._code_seqs()[code])
         stops = [c for c, a in tbl.items() if a == "*"] or ["GCT"]
